@@ -1,4 +1,5 @@
 import NdnProofs.Lemmas.PacketEnc
+import NdnProofs.Lemmas.PacketParseInterest
 import NdnProofs.Props.C08
 /-!
 # C01 — Interest and Data packets survive an encode/decode round trip
@@ -114,8 +115,9 @@ def dataValueFs : List Schema := [nameS, metaS, contentS, dataSigInfoS, .bytes 2
 
 /-- **parse_make_data_partial.** Decoding the Value of a made Data with the Data field list gives back
     exactly the name, MetaInfo, Content, SignatureInfo and signature that went in (C08 round trip).
-    *Partial*: the OffsetMarker pseudo-fields (offsets reported in SignaturePtrs) and the Interest side
-    are compared by the correspondence, not proved. -/
+    *Partial*: stated on the marker-free field list.  The statement with the five OffsetMarker
+    pseudo-fields is `C02.parsed_cover_is_signed_portion_data`; the Interest side is `parse_make_interest`,
+    `parse_make_interest_params` and `parse_make_interest_plain` below. -/
 theorem parse_make_data_partial (name : List Bytes) (mi content sigInfo : Value) (sig p : Bytes)
     (hp : encFields [nameS, metaS, contentS, dataSigInfoS] [.name name, mi, content, sigInfo] = .ok p)
     (hfit : fitsFs [nameS, metaS, contentS, dataSigInfoS] [.name name, mi, content, sigInfo] = true)
@@ -136,6 +138,189 @@ example :
     let s : SignerOut := { reserved := 8, sig := [1, 2, 3, 4, 5] }
     (makeData [[8, 1, 97]] .none (.bytes [120, 121]) (.model [.uint 3, .none, .none, .none, .none]) (some s)).map (·.wire)
       = .ok [6, 21, 7, 3, 8, 1, 97, 21, 2, 120, 121, 22, 3, 27, 1, 3, 23, 5, 1, 2, 3, 4, 5] := by
+  rfl
+
+/-! ### the Interest side of decode-after-encode -/
+
+theorem digestPos_no_digest (need : Bool) : ∀ (l : List Bytes) (i : Nat),
+    (∀ c ∈ l, isDigestComp c = false) → digestPos need l i none = .ok none
+  | [], _, _ => rfl
+  | c :: r, i, h => by
+    simp only [digestPos, h c (List.mem_cons_self ..), Bool.false_eq_true, if_false]
+    exact digestPos_no_digest need r (i + 1) (fun x hx => h x (List.mem_cons_of_mem _ hx))
+
+/-- `make_interest` with a signer and a name without digest component is `interestCore … true none` on
+    the effective ApplicationParameters (empty when none was given). -/
+theorem make_interest_is_core (H : Bytes → Bytes) (name : List Bytes) (mid : List Value)
+    (appParam sigInfo : Value) (s : SignerOut) (hnd : ∀ c ∈ name, isDigestComp c = false) :
+    makeInterest H name mid appParam sigInfo (some s) =
+      interestCore H name mid (effApp true appParam) sigInfo (some s) true none := by
+  have hneed : (!isNone (effApp true appParam)) = true := by
+    cases appParam <;> simp [effApp, isNone]
+  unfold makeInterest
+  simp only [Option.isSome_some, hneed, digestPos_no_digest true name 0 hnd, bind, Except.bind]
+
+/-- **make_interest_plain_wire.** A plain Interest (unsigned, no ApplicationParameters, no digest
+    component in the name) is exactly `tlv INTEREST (Name ++ params)`; the name is returned unchanged. -/
+theorem make_interest_plain_wire (H : Bytes → Bytes) (name : List Bytes) (mid : List Value) (midB : Bytes)
+    (hmid : encFields [.bool 33, .bool 18, linksS, .uint 10 (some 4), .uint 12 none, .uint 34 (some 1)] mid = .ok midB)
+    (hnd : ∀ c ∈ name, isDigestComp c = false)
+    (hcl : (concatB name).length + midB.length + 64 < 2 ^ 64) :
+    makeInterest H name mid .none .none none =
+      .ok { wire := tlv 5 (tlv 7 (concatB name) ++ midB), covered := [], finalName := name,
+            digestCovered := [] } := by
+  have htl : tlvE 7 (concatB name) = .ok (tlv 7 (concatB name)) := by
+    simp [tlvE]; omega
+  have hw := wrapShrink_spec 5 (tlv 7 (concatB name) ++ midB) [] (by decide) (by
+    simp only [List.append_nil, List.length_append, tlv_length]
+    have h7 : tlNumSize 7 = 1 := by decide
+    have := tlNumSize_cases (concatB name).length
+    omega)
+  simp only [List.append_nil, List.length_nil] at hw
+  have hcore : makeInterest H name mid .none .none none = interestCore H name mid .none .none none false none := by
+    have e1 : effApp (none : Option SignerOut).isSome Value.none = Value.none := rfl
+    have e2 : (!isNone Value.none) = false := rfl
+    unfold makeInterest
+    simp only [e1, e2, digestPos_no_digest false name 0 hnd, bind, Except.bind]
+  rw [hcore]
+  unfold interestCore
+  simp only [Bool.false_and, Bool.false_eq_true, if_false, bind, Except.bind, hmid, encFields, enc,
+    pure, Except.pure, List.append_nil, htl, hw]
+
+/-- **make_interest_params_wire.** An unsigned Interest with ApplicationParameters (digest component
+    appended) is exactly `tlv INTEREST (Name' ++ params ++ AppParam [++ SigInfo])`, `Name'` = the given name
+    followed by a ParametersSha256Digest component holding `H` of ApplicationParameters … end. -/
+theorem make_interest_params_wire (H : Bytes → Bytes) (name : List Bytes) (mid : List Value)
+    (app sigInfo : Value) (midB tailA : Bytes)
+    (hmid : encFields [.bool 33, .bool 18, linksS, .uint 10 (some 4), .uint 12 none, .uint 34 (some 1)] mid = .ok midB)
+    (htail : encFields [.bytes 36 false, intSigInfoS] [app, sigInfo] = .ok tailA) :
+    ∀ (comps : List Bytes), comps = placeDigest (name ++ [digestPlaceholder]) name.length (H tailA) →
+    (concatB comps).length + midB.length + tailA.length + 64 < 2 ^ 64 →
+    interestCore H name mid app sigInfo none true none =
+      .ok { wire := tlv 5 (tlv 7 (concatB comps) ++ midB ++ tailA), covered := [],
+            finalName := comps, digestCovered := tailA } := by
+  intro comps hc hcl
+  unfold interestCore
+  simp only [Option.isNone_none, Bool.and_self, if_true, bind, Except.bind, hmid, htail,
+    pure, Except.pure, List.length_nil, Nat.sub_self, List.take_nil, List.append_nil]
+  have htl : tlvE 7 (concatB comps) = .ok (tlv 7 (concatB comps)) := by
+    simp [tlvE]; omega
+  rw [← hc]
+  simp only [htl]
+  have := wrapShrink_spec 5 (tlv 7 (concatB comps) ++ midB ++ tailA) [] (by decide) (by
+    simp only [List.append_nil, List.length_append, tlv_length]
+    have h7 : tlNumSize 7 = 1 := by decide
+    have := tlNumSize_cases (concatB comps).length
+    omega)
+  simp only [List.append_nil, List.length_nil] at this
+  rw [this]
+
+/-- **parse_make_interest.** `parse_interest(make_interest(...))` for a signed Interest to which the
+    digest component is appended: the parser returns the final name (the given name followed by the
+    ParametersSha256Digest component — also what `make_interest(need_final_name=True)` returned), the
+    parameter values, ApplicationParameters, SignatureInfo and the signature value that went in.  The
+    seven leading pseudo-fields hold offset 0, `_sig_cover_start` / `_digest_cover_start` hold the offset
+    of ApplicationParameters, `_sig_cover_end` is unset.
+    Hypotheses: the name components are single TLV elements, none of them a digest component (else
+    `make_interest` takes another path), the values are legal for their fields, `H` yields 32 bytes. -/
+theorem parse_make_interest (H : Bytes → Bytes) (name : List Bytes) (mid : List Value) (app sigInfo : Value)
+    (s : SignerOut) (midB tailA : Bytes)
+    (hmid : encFields [.bool 33, .bool 18, linksS, .uint 10 (some 4), .uint 12 none, .uint 34 (some 1)] mid = .ok midB)
+    (htail : encFields [.bytes 36 false, intSigInfoS] [app, sigInfo] = .ok tailA)
+    (hle : s.sig.length ≤ s.reserved) (hflex : s.sig.length = s.reserved ∨ s.reserved < 253)
+    (hr : s.reserved < 2 ^ 64)
+    (hname : name.all compOk = true) (hnd : ∀ c ∈ name, isDigestComp c = false)
+    (hfitmid : fitsFs [.bool 33, .bool 18, linksS, .uint 10 (some 4), .uint 12 none, .uint 34 (some 1)] mid = true)
+    (hfittail : fitsFs [.bytes 36 false, intSigInfoS] [app, sigInfo] = true) :
+    ∀ (digested : Bytes) (comps : List Bytes), digested = tailA ++ tlv 46 s.sig →
+    (H digested).length = 32 → comps = name ++ [2 :: 32 :: H digested] →
+    (concatB comps).length + midB.length + tailA.length + s.reserved + 64 < 2 ^ 64 →
+    ∃ m, interestCore H name mid app sigInfo (some s) true none = .ok m ∧ m.finalName = comps ∧
+      (parseInterest m.wire).map (·.1) =
+        .ok (List.replicate 7 (Value.uint 0) ++ (Value.name comps :: mid) ++
+             List.replicate 2 (Value.uint (tlv 7 (concatB comps) ++ midB).length) ++
+             [app, sigInfo, Value.bytes s.sig] ++ [Value.none]) := by
+  intro digested comps hd hH hc hcl
+  subst hd
+  have hc' : comps = placeDigest (name ++ [digestPlaceholder]) name.length (H (tailA ++ tlv 46 s.sig)) := by
+    rw [placeDigest_appended]; exact hc
+  have hw := make_interest_wire H name mid app sigInfo s midB tailA hmid htail hle hflex hr _ comps rfl hc' hcl
+  refine ⟨_, hw, rfl, ?_⟩
+  subst hc
+  have hsize : (tlv 7 (concatB (name ++ [2 :: 32 :: H (tailA ++ tlv 46 s.sig)])) ++ midB ++ tailA ++
+      tlv 46 s.sig).length < 2 ^ 64 := by
+    simp only [List.length_append, tlv_length]
+    have h7 : tlNumSize 7 = 1 := by decide
+    have h46 : tlNumSize 46 = 1 := by decide
+    have := tlNumSize_cases (concatB (name ++ [2 :: 32 :: H (tailA ++ tlv 46 s.sig)])).length
+    have := tlNumSize_cases s.sig.length
+    omega
+  rw [parseInterest_signed name _ mid app sigInfo s.sig midB tailA hmid htail hname hnd hH hfitmid hfittail
+    (by omega) hsize]
+  rfl
+
+/-- **parse_make_interest_params.** The same for an unsigned Interest that carries (non-empty encoded)
+    ApplicationParameters: no signature value comes back. -/
+theorem parse_make_interest_params (H : Bytes → Bytes) (name : List Bytes) (mid : List Value)
+    (app sigInfo : Value) (midB tailA : Bytes)
+    (hmid : encFields [.bool 33, .bool 18, linksS, .uint 10 (some 4), .uint 12 none, .uint 34 (some 1)] mid = .ok midB)
+    (htail : encFields [.bytes 36 false, intSigInfoS] [app, sigInfo] = .ok tailA)
+    (hname : name.all compOk = true) (hnd : ∀ c ∈ name, isDigestComp c = false)
+    (hfitmid : fitsFs [.bool 33, .bool 18, linksS, .uint 10 (some 4), .uint 12 none, .uint 34 (some 1)] mid = true)
+    (hfittail : fitsFs [.bytes 36 false, intSigInfoS] [app, sigInfo] = true)
+    (hne : tailA ≠ []) (hH : (H tailA).length = 32) :
+    ∀ (comps : List Bytes), comps = name ++ [2 :: 32 :: H tailA] →
+    (concatB comps).length + midB.length + tailA.length + 64 < 2 ^ 64 →
+    ∃ m, interestCore H name mid app sigInfo none true none = .ok m ∧ m.finalName = comps ∧
+      (parseInterest m.wire).map (·.1) =
+        .ok (List.replicate 7 (Value.uint 0) ++ (Value.name comps :: mid) ++
+             List.replicate 2 (Value.uint (tlv 7 (concatB comps) ++ midB).length) ++
+             [app, sigInfo, Value.none] ++ [Value.none]) := by
+  intro comps hc hcl
+  have hc' : comps = placeDigest (name ++ [digestPlaceholder]) name.length (H tailA) := by
+    rw [placeDigest_appended]; exact hc
+  have hw := make_interest_params_wire H name mid app sigInfo midB tailA hmid htail comps hc' hcl
+  refine ⟨_, hw, rfl, ?_⟩
+  subst hc
+  have hsize : (tlv 7 (concatB (name ++ [2 :: 32 :: H tailA])) ++ midB ++ tailA).length < 2 ^ 64 := by
+    simp only [List.length_append, tlv_length]
+    have h7 : tlNumSize 7 = 1 := by decide
+    have := tlNumSize_cases (concatB (name ++ [2 :: 32 :: H tailA])).length
+    omega
+  rw [parseInterest_params name _ mid app sigInfo midB tailA hmid htail hname hnd hH hfitmid hfittail
+    hne hsize]
+  rfl
+
+/-- **parse_make_interest_plain.** `parse_interest(make_interest(name, param))` for a plain Interest:
+    the name and every parameter value come back; ApplicationParameters, SignatureInfo, SignatureValue
+    and the three cover markers are absent. -/
+theorem parse_make_interest_plain (H : Bytes → Bytes) (name : List Bytes) (mid : List Value) (midB : Bytes)
+    (hmid : encFields [.bool 33, .bool 18, linksS, .uint 10 (some 4), .uint 12 none, .uint 34 (some 1)] mid = .ok midB)
+    (hname : name.all compOk = true) (hnd : ∀ c ∈ name, isDigestComp c = false)
+    (hfitmid : fitsFs [.bool 33, .bool 18, linksS, .uint 10 (some 4), .uint 12 none, .uint 34 (some 1)] mid = true)
+    (hcl : (concatB name).length + midB.length + 64 < 2 ^ 64) :
+    ∃ m, makeInterest H name mid .none .none none = .ok m ∧ m.finalName = name ∧
+      (parseInterest m.wire).map (·.1) =
+        .ok (List.replicate 7 (Value.uint 0) ++ (Value.name name :: mid) ++ List.replicate 6 Value.none) := by
+  refine ⟨_, make_interest_plain_wire H name mid midB hmid hnd hcl, rfl, ?_⟩
+  have hsize : (tlv 7 (concatB name) ++ midB).length < 2 ^ 64 := by
+    simp only [List.length_append, tlv_length]
+    have h7 : tlNumSize 7 = 1 := by decide
+    have := tlNumSize_cases (concatB name).length
+    omega
+  rw [parseInterest_plain name mid midB hmid hname hnd hfitmid hsize]
+  rfl
+
+/-! ### non-vacuity: a concrete unsigned Interest with ApplicationParameters round-trips -/
+example :
+    (do let m ← makeInterest (fun _ => List.replicate 32 9) [[8, 1, 97]]
+                  [.bool, .none, .none, .uint 7, .none, .uint 3] (.bytes [1]) .none none
+        let (vs, _) ← parseInterest m.wire
+        pure (m.finalName, vs)) =
+    .ok ([[8, 1, 97], 2 :: 32 :: List.replicate 32 9],
+         List.replicate 7 (Value.uint 0) ++
+           [Value.name [[8, 1, 97], 2 :: 32 :: List.replicate 32 9], .bool, .none, .none, .uint 7, .none, .uint 3] ++
+           [.uint 50, .uint 50, .bytes [1], .none, .none, .none]) := by
   rfl
 
 end Ndn.C01
